@@ -4,3 +4,7 @@ def r04_3(chk):
 
 def r12_5(chk):
     pass
+
+
+def r13_4(chk):
+    pass
